@@ -280,7 +280,7 @@ pub fn check(ctx: &Ctx, rep: &mut Report) {
         calibrate(rep);
     }
     pinned(ctx, rep);
-    let total = ctx.size(60_000, 1_600_000) / ctx.nshards;
+    let total = ctx.size(60_000, 8_000_000) / ctx.nshards;
     for k in 0..total {
         if !ctx.wants(k) {
             continue;
